@@ -55,8 +55,10 @@ func init() {
 					return in.concStr("")
 				}
 			}
-			abortf("(*structpb.Struct).String on a struct with fields is outside the model")
-			return nil
+			// with fields: a canonical rendering (keys sorted, every kind tagged) that is equal exactly for
+			// semantically equal messages - all the callers do with the result is compare it
+			in.stubLog["model:(*structpb.Struct).String of a struct with fields = canonical injective rendering (only equality is meaningful)"]++
+			return in.protoString(fn.Signature.Recv().Type(), v, 0)
 		})
 	})
 }
